@@ -1801,6 +1801,9 @@ impl SocketAddress for unix::net::SocketAddr {
             }
         }
 
+        // The length of a pathname returned by the kernel includes the
+        // terminating null byte, which `from_pathname` doesn't accept.
+        let path = path.strip_suffix(&[0]).unwrap_or(path);
         unix::net::SocketAddr::from_pathname(Path::new(OsStr::from_bytes(path)))
             // Fallback to an unnamed address.
             // SAFETY: unnamed (zero length) address is valid.
